@@ -20,14 +20,15 @@ STORE_FNS = ["Database::get_value", "Database::set_value_version", "Database::se
 K_NEXT_VERSION = dict(name="c02_next_version__next_version", function="Change::next_version", label="C02.next-version-kani", complete=True,
                       bound="none: all i32 x i32 x bool, loop-free", src="src/lib/bo.rs (Change::next_version)", timeout=600)
 K_FILTER = dict(name="c08_listing_hides_secure__filter_system_keys", function="filter_system_keys", label="C08.listing-hides-secure", complete=False,
-                bound="key <= 3 printable ASCII bytes (the function inspects only the 2-byte prefix)", src="src/lib/bo.rs (filter_system_keys)", timeout=900)
+                bound="key <= 3 printable ASCII bytes (the function inspects only the 2-byte prefix)", src="src/lib/bo.rs (filter_system_keys)", timeout=900,
+                tier="thorough")
 K_AUTH = dict(name="c09_auth_gate__apply_if_auth", function="apply_if_auth", label="C09.auth-gate-kani", complete=True,
               bound="none: both flag values, closure call counter", src="src/lib/security.rs (apply_if_auth)", timeout=600)
 K_KIND = dict(name="c09_kind_letters__permission_kind_from_char", function="PermissionKind::from(char)", label="C09.kind-letters", complete=True,
               bound="none: all chars", src="src/lib/bo.rs (impl From<char> for PermissionKind)", timeout=600)
 K_PATTERN_CHOICE = dict(name="c01_keys_pattern_choice__get_function_by_pattern", function="get_function_by_pattern", label="C01.keys-pattern-choice",
                         complete=False, bound="pattern <= 3 bytes over {a,b,*,$} (the function looks at first/last char only)",
-                        src="src/lib/db_ops.rs (get_function_by_pattern)", timeout=900)
+                        src="src/lib/db_ops.rs (get_function_by_pattern)", timeout=900, tier="thorough")
 K_CODEC = dict(name="c12_codec__replicate_opp", function="ReplicateOpp::{to_u8,from}", label="C12.op-codec", complete=True,
                bound="none: all 256 bytes", src="src/lib/bo.rs (ReplicateOpp)", timeout=600)
 
